@@ -10,6 +10,37 @@ same assignment must leave the sink as the first did (determinism of re-running 
 Only the tags VP:resolve-differs / VP:input-modified / VP:second-solve-differs / VP:source-modified count here.
 """
 from . import c01, c03, c04, c15
+from ..model import H
+from .common import *
+
+
+def gen_matmul(t, n, tier):
+    """MatMul<DMatrix, DMatrix> (machines/matrix/src/matmul.rs, `mul_to`): n x n times n x n with small symbolic elements, solved
+    twice - the output of the second solve equals the first (it must overwrite, not accumulate), equals the product, and the
+    operands are untouched"""
+    N = n * n
+    b = [sym_array(t, "a", N), sym_array(t, "b", N),
+         "kani::assume(%s);" % " && ".join("a[%d] < 8 && b[%d] < 8" % (k, k) for k in range(N)),
+         "let lc = Ref::new(DMatrix::<%s>::from_vec(%d, %d, a.to_vec())); let rc = Ref::new(DMatrix::<%s>::from_vec(%d, %d, b.to_vec()));" % (t, n, n, t, n, n),
+         "let oc = Ref::new(DMatrix::<%s>::from_element(%d, %d, 0 as %s));" % (t, n, n, t),
+         "let f = MatMulMDMD::<%s> { lhs: lc.clone(), rhs: rc.clone(), out: oc.clone() };" % t,
+         "f.solve();"]
+    want = []
+    for j in range(n):
+        for i in range(n):
+            want.append(" + ".join("a[%d] * b[%d]" % (i + k * n, k + j * n) for k in range(n)))
+    b.append("let want: [%s; %d] = [%s];" % (t, N, ", ".join(want)))
+    b.append("{ let o = oc.borrow(); assert!(%s, \"VP:wrong-product\"); }" % " && ".join("o[%d] == want[%d]" % (k, k) for k in range(N)))
+    b.append("f.solve();")
+    b.append("{ let o = oc.borrow(); assert!(%s, \"VP:second-solve-differs\"); }" % " && ".join("o[%d] == want[%d]" % (k, k) for k in range(N)))
+    b.append("{ let l = lc.borrow(); let r = rc.borrow(); assert!(%s, \"VP:input-modified\"); }" % " && ".join("l[%d] == a[%d] && r[%d] == b[%d]" % (k, k, k, k) for k in range(N)))
+    b.append("kani::cover!(true, \"VP:reached\");")
+    b.append("forget(f); forget(lc); forget(rc); forget(oc);")
+    return H("c19_matmul_mdmd_%s_%dx%d" % (t, n, n), "    " + "\n    ".join(b), ("matrix", "src/matmul.rs"), domain="accept",
+             key="C19/L1/MatMulMDMD<%s>/%dx%d" % (t, n, n),
+             desc="%dx%d ** %dx%d on %s (elements < 8): solve twice - product correct, second solve identical, operands untouched" % (n, n, n, n, t),
+             functions=["MatMulMDMD::solve (machines/matrix/src/matmul.rs: matmul_op -> nalgebra mul_to)"], bounds="%dx%d, elements 0..7" % (n, n),
+             unwind=N + 2, tier=tier)
 
 
 def plan(tier, seed):
@@ -36,16 +67,19 @@ def plan(tier, seed):
     hs.append(c04.gen(t, "MD", (2, 2), ("V",), (2,), "scalar", "accept", "thorough"))
     hs.append(c15.gen_int("excl", "u8", "accept", "quick"))
     hs.append(c15.gen_int("incl_step", "i16", "accept", "thorough"))
+    hs.append(gen_matmul("u8", 2, "quick"))
+    hs.append(gen_matmul("i64", 2, "thorough"))
     for h in hs:
         h.name = h.name.replace("c01_", "c19_op_").replace("c03_", "c19_ix_").replace("c04_", "c19_as_").replace("c15_", "c19_rg_")
         h.key = "C19/" + h.key
     pre = {}
     pre.update(c03.plan(tier, seed)["incrate_prelude"])
     pre.update(c04.plan(tier, seed)["incrate_prelude"])
+    pre[("matrix", "src/matmul.rs")] = "  use nalgebra::DMatrix;\n"
     return {
         "harnesses": hs,
         "incrate_prelude": pre,
-        "tag_filter": r"VP:(resolve-differs|input-modified|second-solve-differs|source-modified).*",
+        "tag_filter": r"VP:(resolve-differs|input-modified|second-solve-differs|source-modified|wrong-product).*",
         "explanation": "Kani/CBMC over the generated plan functions (operator, indexing, assignment and range kernels): solve, perturb the "
                        "output cell, solve again - identical output, inputs untouched; the induction over the plan and the loop of "
                        "Interpreter::step are read, not encoded",
